@@ -116,13 +116,26 @@ func wantErrno(k kase) linux.Errno {
 	return writeErrno
 }
 
+// loweredP is a payload size that is reached by NEGOTIATION: the client asks
+// for 8 MiB, the real server grants 4 MiB, and the payload the client must
+// then use is (4 MiB - largestFixedSize) rounded down to 512.
+func loweredP() uint32 {
+	p := uint32(4<<20) - p9.VerifLargestFixedSize()
+	return p - p%512
+}
+
 func newSession(P uint32) (*session, error) {
 	se := &session{p: P, msize: p9.VerifLargestFixedSize() + P}
+	request := se.msize
+	if P == loweredP() {
+		request = 8 << 20
+		se.msize = 4 << 20 // what the server announces
+	}
 	se.fs = memfs.New()
 	se.ino = se.fs.AddFile("f", nil)
 	se.fs.Hook = se.hook
 	se.s = sess.Connect(se.fs, sess.NewServer(se.fs), "c11")
-	cl, err := p9.NewClient(se.s.CC, p9.WithMessageSize(se.msize))
+	cl, err := p9.NewClient(se.s.CC, p9.WithMessageSize(request))
 	if err != nil {
 		se.s.Hangup()
 		se.s.WaitDone()
@@ -665,6 +678,7 @@ func grids(quick bool) []grid {
 			{P: 513},
 			{P: 1025},
 			{P: 1 << 20, reduced: true},
+			{P: loweredP(), reduced: true}, // msize lowered by the server: requested 8 MiB, granted 4 MiB
 		}
 	}
 	return []grid{
@@ -679,6 +693,7 @@ func grids(quick bool) []grid {
 		{P: 1025, complete: true},
 		{P: 1 << 20, reduced: true},
 		{P: maxP, reduced: true},
+		{P: loweredP(), reduced: true}, // msize lowered by the server: requested 8 MiB, granted 4 MiB
 	}
 }
 
